@@ -151,6 +151,8 @@ func (c *cl) add(bulk [][]byte, single bool) bool {
 		ev["errmsg"] = truncate(err.Error(), 160)
 	}
 	sl := []interface{}{}
+	c.mu.Lock()
+	defer c.mu.Unlock()
 	for _, s := range snaps {
 		sl = append(sl, trace.Ev{"v": s.Version, "e": hx(s.EventDigest), "hist": c.enc.Enc(s.HistoryDigest), "hyper": c.enc.Enc(s.HyperDigest)})
 		c.snaps[s.Version] = s
@@ -198,9 +200,15 @@ func (c *cl) pathTerms(p map[string]hashing.Digest) trace.Ev {
 
 // member asks node id for a membership proof and verifies it, through the wire format,
 // against the snapshots the LEADER acknowledged.
-func (c *cl) member(id int, d []byte, q uint64, latest bool) {
+func (c *cl) member(id int, d []byte, q uint64, latest bool) { c.memberQ(id, d, q, latest, 0)() }
+
+// memberQ performs the query now and returns the function that verifies and records it
+// (inWindow > 0: the query ran while an insertion of that many events was in flight).
+func (c *cl) memberQ(id int, d []byte, q uint64, latest bool, inWindow int) func() {
 	n := c.nodes[id-1]
+	c.mu.Lock()
 	c.q++
+	c.mu.Unlock()
 	ev := trace.Ev{"a": "nmember", "n": id, "d": hx(d), "q": q, "latest": latest}
 	var proof *balloon.MembershipProof
 	var err error
@@ -211,6 +219,9 @@ func (c *cl) member(id int, d []byte, q uint64, latest bool) {
 			proof, err = n.Raft.QueryDigestMembershipConsistency(d, q)
 		}
 	})
+	if inWindow > 0 {
+		ev["inwindow"] = inWindow
+	}
 	if pan || err != nil {
 		ev["err"] = true
 		if pan {
@@ -218,9 +229,12 @@ func (c *cl) member(id int, d []byte, q uint64, latest bool) {
 		} else {
 			ev["errmsg"] = truncate(err.Error(), 160)
 		}
-		c.emit(ev)
-		return
+		return func() { c.emit(ev) }
 	}
+	return func() { c.memberFinish(ev, proof, d) }
+}
+
+func (c *cl) memberFinish(ev trace.Ev, proof *balloon.MembershipProof, d []byte) {
 	ev["err"] = false
 	ev["exists"], ev["actual"], ev["query"], ev["current"], ev["key"] = proof.Exists, proof.ActualVersion, proof.QueryVersion, proof.CurrentVersion, hx(proof.KeyDigest)
 	mr := protocol.ToMembershipResult(nil, proof)
@@ -234,8 +248,10 @@ func (c *cl) member(id int, d []byte, q uint64, latest bool) {
 	if qv > cur {
 		qv = cur
 	}
+	c.mu.Lock()
 	sq, okq := c.snaps[qv]
 	sc, okc := c.snaps[cur]
+	c.mu.Unlock()
 	if okq && okc {
 		snap := &balloon.Snapshot{EventDigest: d, HistoryDigest: sq.HistoryDigest, HyperDigest: sc.HyperDigest, Version: qv}
 		var vLocal, vWire bool
@@ -249,21 +265,31 @@ func (c *cl) member(id int, d []byte, q uint64, latest bool) {
 	c.emit(ev)
 }
 
-func (c *cl) incr(id int, s, e uint64) {
+func (c *cl) incr(id int, s, e uint64) { c.incrQ(id, s, e, 0)() }
+
+func (c *cl) incrQ(id int, s, e uint64, inWindow int) func() {
 	n := c.nodes[id-1]
+	c.mu.Lock()
 	c.q++
+	c.mu.Unlock()
 	ev := trace.Ev{"a": "nincr", "n": id, "s": s, "e": e}
 	var proof *balloon.IncrementalProof
 	var err error
 	pan, msg := guard(func() { proof, err = n.Raft.QueryConsistency(s, e) })
+	if inWindow > 0 {
+		ev["inwindow"] = inWindow
+	}
 	if pan || err != nil {
 		ev["err"] = true
 		if pan {
 			ev["panic"] = truncate(msg, 160)
 		}
-		c.emit(ev)
-		return
+		return func() { c.emit(ev) }
 	}
+	return func() { c.incrFinish(ev, proof, s, e) }
+}
+
+func (c *cl) incrFinish(ev trace.Ev, proof *balloon.IncrementalProof, s, e uint64) {
 	ev["err"] = false
 	resp := protocol.ToIncrementalResponse(proof)
 	raw, _ := json.Marshal(resp)
@@ -271,8 +297,10 @@ func (c *cl) incr(id int, s, e uint64) {
 	json.Unmarshal(raw, &back)
 	ev["rs"], ev["re"] = back.Start, back.End
 	ev["path"] = c.pathTerms(back.AuditPath)
+	c.mu.Lock()
 	ss, oks := c.snaps[s]
 	se, oke := c.snaps[e]
+	c.mu.Unlock()
 	if oks && oke {
 		var v bool
 		guard(func() {
@@ -527,6 +555,236 @@ func (c *cl) scenarioRestore(newNode bool, changeLeader bool) error {
 	return nil
 }
 
+// ---- scenario: queries (and backups) inside the compute->persist window of an insertion (C10, C16)
+// The gated store holds db.Mutate of the next apply before the real write; while it is held,
+// other goroutines issue every kind of query for old and in-flight events.
+func (c *cl) scenarioWindow(rounds int) error {
+	if err := c.startNode(1, true, nil); err != nil {
+		return err
+	}
+	n := c.nodes[0]
+	if !qcluster.WaitFor(15*time.Second, n.Raft.IsLeader) {
+		return fmt.Errorf("seed did not become leader")
+	}
+	for i := 0; i < 1+c.rng.Intn(4); i++ {
+		b, s := c.randBulk()
+		c.add(b, s)
+	}
+	for r := 0; r < rounds; r++ {
+		bulk, single := c.randBulk()
+		release := n.Gate.HoldBefore(1)
+		done := make(chan bool, 1)
+		go func() { done <- c.add(bulk, single) }()
+		select {
+		case <-n.Gate.Held:
+		case <-time.After(10 * time.Second):
+			close(release)
+			return fmt.Errorf("apply never reached the store")
+		}
+		// inside the window: the balloon has computed the insertion, the store has not been written
+		c.emit(trace.Ev{"a": "info", "what": "window open"})
+		nlog := uint64(len(c.log))
+		var wg sync.WaitGroup
+		var fmu sync.Mutex
+		finishers := []func(){}
+		work := func(f func()) {
+			wg.Add(1)
+			go func() { defer wg.Done(); f() }()
+		}
+		m := len(bulk)
+		mq := func(d []byte, q uint64, latest bool) {
+			f := c.memberQ(1, d, q, latest, m)
+			fmu.Lock()
+			finishers = append(finishers, f)
+			fmu.Unlock()
+		}
+		iq := func(s, e uint64) {
+			f := c.incrQ(1, s, e, m)
+			fmu.Lock()
+			finishers = append(finishers, f)
+			fmu.Unlock()
+		}
+		for t := 0; t < 3; t++ {
+			if nlog > 0 {
+				d := c.log[c.rng.Int63n(int64(nlog))]
+				work(func() { mq(d, nlog-1, true) })
+				q := uint64(c.rng.Int63n(int64(nlog)))
+				work(func() { mq(d, q, false) })
+				q2 := nlog - 1 + uint64(c.rng.Intn(len(bulk)+1))
+				work(func() { mq(d, q2, false) })
+			}
+		}
+		for _, d := range bulk { // the events in flight
+			d := d
+			work(func() { mq(d, nlog+uint64(len(bulk))-1, true) })
+			work(func() { mq(d, nlog+uint64(len(bulk))-1, false) })
+		}
+		for t := 0; t < 4; t++ {
+			e := uint64(c.rng.Int63n(int64(nlog) + int64(len(bulk))))
+			s := uint64(c.rng.Int63n(int64(e + 1)))
+			work(func() { iq(s, e) })
+		}
+		if c.rng.Intn(2) == 0 {
+			work(func() { c.backup(1) })
+		}
+		finished := make(chan struct{})
+		go func() { wg.Wait(); close(finished) }()
+		select {
+		case <-finished:
+			c.emit(trace.Ev{"a": "info", "what": "window queries answered"})
+		case <-time.After(2 * time.Second):
+			// queries may legitimately wait for the insertion to complete
+			c.emit(trace.Ev{"a": "info", "what": "queries wait for the insertion"})
+		}
+		close(release)
+		<-done
+		select {
+		case <-finished:
+		case <-time.After(20 * time.Second):
+			c.emit(trace.Ev{"a": "hang", "n": 1})
+			return fmt.Errorf("queries never returned")
+		}
+		// the acknowledgement is recorded now: verify what the queries returned inside the window
+		for _, f := range finishers {
+			f()
+		}
+		if c.rng.Intn(2) == 0 {
+			c.checkAll(false)
+		}
+	}
+	c.checkAll(true)
+	c.restoreBackups()
+	return nil
+}
+
+func (c *cl) backup(id int) {
+	n := c.nodes[id-1]
+	var err error
+	pan, msg := guard(func() { err = n.Raft.CreateBackup() })
+	ev := trace.Ev{"a": "backup", "n": id, "err": err != nil || pan}
+	if pan {
+		ev["panic"] = truncate(msg, 160)
+	}
+	infos := n.Raft.ListBackups()
+	ids := []interface{}{}
+	for _, bi := range infos {
+		ids = append(ids, trace.Ev{"id": bi.ID, "meta": bi.Metadata})
+	}
+	ev["list"] = ids
+	c.emit(ev)
+}
+
+// ---- scenario: backups (C16): add / backup / add / delete-backup ..., then every existing backup is
+// restored into a fresh directory and opened as a new node.
+func (c *cl) scenarioBackup(rounds int) error {
+	if err := c.startNode(1, true, nil); err != nil {
+		return err
+	}
+	n := c.nodes[0]
+	if !qcluster.WaitFor(15*time.Second, n.Raft.IsLeader) {
+		return fmt.Errorf("seed did not become leader")
+	}
+	if c.rng.Intn(3) == 0 {
+		c.backup(1) // backup of an empty log
+	}
+	for r := 0; r < rounds; r++ {
+		switch x := c.rng.Intn(10); {
+		case x < 6:
+			b, s := c.randBulk()
+			c.add(b, s)
+		case x < 9:
+			c.backup(1)
+		default:
+			infos := n.Raft.ListBackups()
+			if len(infos) > 0 {
+				id := infos[c.rng.Intn(len(infos))].ID
+				err := n.Raft.DeleteBackup(uint32(id))
+				after := []interface{}{}
+				for _, bi := range n.Raft.ListBackups() {
+					after = append(after, trace.Ev{"id": bi.ID, "meta": bi.Metadata})
+				}
+				c.emit(trace.Ev{"a": "delbackup", "n": 1, "id": id, "err": err != nil, "list": after})
+			}
+		}
+	}
+	c.backup(1)
+	b, s := c.randBulk()
+	c.add(b, s)
+	c.checkAll(false)
+	c.restoreBackups()
+	return nil
+}
+
+// restoreBackups restores every existing backup of node 1 into a fresh node 2 (own db and raft
+// directories), checks what it reports and proves, and inserts one more event.
+func (c *cl) restoreBackups() {
+	n := c.nodes[0]
+	if !n.Up {
+		return
+	}
+	infos := n.Raft.ListBackups()
+	for i, bi := range infos {
+		if i >= 3 && i < len(infos)-1 {
+			continue
+		}
+		dir := filepath.Join(c.dir, fmt.Sprintf("restored_%d", bi.ID))
+		os.MkdirAll(filepath.Join(dir, "db"), 0755)
+		err := n.Gate.RestoreFromBackup(uint32(bi.ID), filepath.Join(dir, "db"), filepath.Join(dir, "db"))
+		c.emit(trace.Ev{"a": "restorebackup", "id": bi.ID, "meta": bi.Metadata, "err": err != nil})
+		if err != nil {
+			continue
+		}
+		r := &qcluster.Node{ID: 2, Dir: dir}
+		c.nodes[1] = r
+		c.emit(trace.Ev{"a": "boot", "n": 2})
+		serr := r.Start(qcluster.Opts{Bootstrap: true, Hook: c.hook(2)})
+		ev := trace.Ev{"a": "bstart", "n": 2, "id": bi.ID, "meta": bi.Metadata, "err": serr != nil}
+		if serr != nil {
+			ev["errmsg"] = truncate(serr.Error(), 160)
+			c.emit(ev)
+			continue
+		}
+		qcluster.WaitFor(15*time.Second, r.Raft.IsLeader)
+		r.Raft.VerifBarrier(5 * time.Second)
+		idx, bver := r.Raft.VerifFSMState()
+		ev["idx"], ev["bver"], ev["version"] = idx, bver, r.Raft.VerifBalloonVersion()
+		c.emit(ev)
+		// membership + consistency of the first v+1 events against the ORIGINAL snapshots
+		ver := r.Raft.VerifBalloonVersion()
+		for v := uint64(0); v < ver && v < uint64(len(c.log)); v++ {
+			c.memberQ(2, c.log[v], ver-1, true, 0)()
+			if v+1 < ver {
+				c.incrQ(2, v, ver-1, 0)()
+			}
+		}
+		// events added after the backup must be unknown
+		if ver < uint64(len(c.log)) {
+			c.memberQ(2, c.log[len(c.log)-1], ver, true, 0)()
+		}
+		// the next event must get version v+1 (recorded as a 'badd' event: the restored node is its own log)
+		d := c.freshDigest()
+		var snap *balloon.Snapshot
+		var aerr error
+		pan, msg := guard(func() { snap, aerr = r.Raft.Add(symhash.EventFor(d)) })
+		ae := trace.Ev{"a": "badd", "n": 2, "id": bi.ID, "meta": bi.Metadata, "d": hx(d), "err": aerr != nil || pan, "was": ver}
+		if pan {
+			ae["panic"] = truncate(msg, 200)
+		}
+		if aerr != nil {
+			ae["errmsg"] = truncate(aerr.Error(), 200)
+		}
+		if snap != nil {
+			ae["v"] = snap.Version
+			ae["hist"] = c.enc.Enc(snap.HistoryDigest)
+			ae["hyper"] = c.enc.Enc(snap.HyperDigest)
+		}
+		c.emit(ae)
+		r.Stop()
+		c.emit(trace.Ev{"a": "bstop", "n": 2})
+		os.RemoveAll(dir)
+	}
+}
+
 func (c *cl) closeAll() {
 	for _, n := range c.nodes {
 		if n.Up {
@@ -593,6 +851,18 @@ func clusterDriver(args []string) error {
 				serr = c.scenarioReplicas(rounds)
 			case "restore":
 				serr = c.scenarioRestore((fi+run)%2 == 1, (fi+run)%4 >= 2)
+			case "backup":
+				rounds := 10
+				if thorough {
+					rounds = 30
+				}
+				serr = c.scenarioBackup(rounds)
+			case "window":
+				rounds := 5
+				if thorough {
+					rounds = 20
+				}
+				serr = c.scenarioWindow(rounds)
 			}
 			if serr != nil {
 				tw.Emit(trace.Ev{"a": "scenario_error", "msg": truncate(serr.Error(), 300)})
